@@ -24,14 +24,16 @@
 (*                    real program actually is (pc + the program's own     *)
 (*                    TICK); verdicts are collected in `viol`.             *)
 (***************************************************************************)
-EXTENDS Integers, Sequences, FiniteSets, TLC, Json, IOUtils
+EXTENDS Integers, Sequences, FiniteSets, TLC, Json, IOUtils, XData
 
-CONSTANTS X,          \* <<[pc, d, ln, st, pe, fn, sk, tk, ext] ...>> one record per executed user instruction
-          Stacks,     \* Stacks[sk] = return addresses of the active calls, outermost first
-          BpCands,    \* candidate breakpoint addresses (statement rows), for generation
-          ExitCode,   \* native exit status
-          Entry,      \* set of addresses the debugger may keep patched for itself (entry point)
-          MaxCmd, MaxBps
+(* XData (generated per puppet binary by tools/sesslib.py; spec/XData.tla is a small sample) defines
+     X        <<[pc, d, ln, st, pe, fn, sk, tk, ext] ...>> one record per executed user instruction
+     Stacks   Stacks[sk] = return addresses of the active calls, outermost first
+     BpCands  candidate breakpoint addresses (statement rows), for generation
+     ExitCode native exit status
+     Entry    set of addresses the debugger may keep patched for itself (entry point)
+   as plain definitions, so that TLC evaluates them once. *)
+CONSTANTS MaxCmd, MaxBps
 
 N == Len(X)
 Exited == N + 1
@@ -41,51 +43,65 @@ Ln(j) == X[j].ln
 St(j) == X[j].st                 \* pc is the start of an is_stmt row
 Sb(j) == X[j].st /\ X[j].pe      \* ... and lies after its function's prologue
 Fn(j) == X[j].fn
-Min(S) == IF S = {} THEN Exited ELSE CHOOSE m \in S : \A n \in S : m <= n
 After(i) == (i + 1)..N
+
+\* first position >= j satisfying a predicate, or Exited (linear scans; recursion depth <= N)
+RECURSIVE ScanPc(_, _), ScanDepthLt(_, _), ScanSb(_), ScanNext(_, _, _), ScanStep(_, _, _)
+ScanPc(j, S)      == IF j > N THEN Exited ELSE IF Pc(j) \in S THEN j ELSE ScanPc(j + 1, S)
+ScanDepthLt(j, d) == IF j > N THEN Exited ELSE IF D(j) < d THEN j ELSE ScanDepthLt(j + 1, d)
+ScanSb(j)         == IF j > N THEN Exited ELSE IF Sb(j) THEN j ELSE ScanSb(j + 1)
+ScanNext(j, d, ln) == IF j > N THEN Exited
+                      ELSE IF D(j) < d \/ (D(j) = d /\ Sb(j) /\ Ln(j) # ln) THEN j ELSE ScanNext(j + 1, d, ln)
+ScanStep(j, d, ln) == IF j > N THEN Exited
+                      ELSE IF D(j) < d \/ (Sb(j) /\ (Ln(j) # ln \/ D(j) # d)) THEN j ELSE ScanStep(j + 1, d, ln)
+MaxOf(S) == CHOOSE m \in S : \A n \in S : n <= m
 
 ---------------------------------------------------------------------------
 (* Reference: where may the program be stopped after a command issued at i *)
 
 \* C01: the next arrival at an enabled user breakpoint location, in execution order
-RefContinue(i, ubp) == Min({j \in After(i) : Pc(j) \in ubp})
+RefContinue(i, ubp) == ScanPc(i + 1, ubp)
 
 \* the first instruction executed after the activation of i has returned
-EndAct(i) == Min({j \in After(i) : D(j) < D(i)})
+EndAct(i) == ScanDepthLt(i + 1, D(i))
 
 \* "in the caller right after the return" (reading rule R7): the return address itself or any
 \* statement boundary up to the first post-prologue statement boundary reached afterwards
 AfterReturnAdm(r) ==
   IF r = Exited THEN {Exited}
-  ELSE LET u == Min({k \in r..N : Sb(k)}) IN
-       {j \in r..N : j <= u /\ (j = r \/ St(j))} \cup (IF u = Exited THEN {Exited} ELSE {})
+  ELSE LET u == ScanSb(r) IN
+       {j \in r..(IF u = Exited THEN N ELSE u) : j = r \/ St(j)} \cup (IF u = Exited THEN {Exited} ELSE {})
 
 \* C03 next: a statement boundary, never inside a callee, no later than the first statement
 \* boundary on a different line reached in the body of the current activation
 NextAdm(i) ==
-  LET e == EndAct(i)
-      u == Min({j \in After(i) : j < e /\ D(j) = D(i) /\ Sb(j) /\ Ln(j) # Ln(i)})
-  IN IF u < e THEN {j \in After(i) : j <= u /\ D(j) = D(i) /\ St(j)}
-     ELSE {j \in After(i) : j < e /\ D(j) = D(i) /\ St(j)} \cup AfterReturnAdm(e)
+  LET u == ScanNext(i + 1, D(i), Ln(i))
+  IN IF u # Exited /\ D(u) = D(i)
+       THEN {j \in (i + 1)..u : D(j) = D(i) /\ St(j)}
+       ELSE {j \in (i + 1)..(IF u = Exited THEN N ELSE u - 1) : D(j) = D(i) /\ St(j)} \cup AfterReturnAdm(u)
 
 \* C03 step: as next, but the first line of a callee that has line information is not skipped
 StepAdm(i) ==
-  LET e == EndAct(i)
-      v == Min({j \in After(i) : j < e /\ Sb(j) /\ (Ln(j) # Ln(i) \/ D(j) # D(i))})
-  IN IF v < e THEN {j \in After(i) : j <= v /\ St(j)}
-     ELSE {j \in After(i) : j < e /\ St(j)} \cup AfterReturnAdm(e)
+  LET v == ScanStep(i + 1, D(i), Ln(i))
+  IN IF v # Exited /\ D(v) >= D(i)
+       THEN {j \in (i + 1)..v : St(j)}
+       ELSE {j \in (i + 1)..(IF v = Exited THEN N ELSE v - 1) : St(j)} \cup AfterReturnAdm(v)
 
 \* C03 finish: immediately after the current function returns, in the caller's activation
 FinishAdm(i) == {EndAct(i)}
 \* C03 stepi: exactly one instruction
 StepIAdm(i) == IF i + 1 <= N THEN {i + 1} ELSE {Exited}
 
+\* tables: evaluated once per execution (they depend on X only)
+EndActT  == [i \in 1..N |-> EndAct(i)]
+NextAdmT == [i \in 1..N |-> NextAdm(i)]
+StepAdmT == [i \in 1..N |-> StepAdm(i)]
+
 Adm(cmd, i) == CASE cmd = "stepi"  -> StepIAdm(i)
-                 [] cmd = "step"   -> StepAdm(i)
-                 [] cmd = "next"   -> NextAdm(i)
-                 [] cmd = "finish" -> FinishAdm(i)
+                 [] cmd = "step"   -> StepAdmT[i]
+                 [] cmd = "next"   -> NextAdmT[i]
+                 [] cmd = "finish" -> {EndActT[i]}
                  [] OTHER          -> {}
-MaxOf(S) == CHOOSE m \in S : \A n \in S : n <= m
 
 \* C05: the real call stack at position j, innermost first (frames of user code)
 RefBacktrace(j) == LET s == Stacks[X[j].sk] IN
@@ -97,15 +113,16 @@ RefBacktrace(j) == LET s == Stacks[X[j].sk] IN
 (* mode (E); the verdict about the code always comes from mode (V).        *)
 
 FnRows(f) == {Pc(j) : j \in {k \in 1..N : Fn(k) = f /\ St(k) /\ X[k].pe}}
+FnRowsT == [f \in {Fn(k) : k \in 1..N} |-> FnRows(f)]
 RetAddr(i) == LET s == Stacks[X[i].sk] IN IF Len(s) = 0 THEN -1 ELSE s[Len(s)]
 ImplNext(i, ubp) ==
-  LET tmp == (FnRows(Fn(i)) \ {Pc(i)}) \cup {RetAddr(i)}
-      hit == Min({j \in After(i) : Pc(j) \in tmp \/ Pc(j) \in ubp})
+  LET tmp == (FnRowsT[Fn(i)] \ {Pc(i)}) \cup {RetAddr(i)}
+      hit == ScanPc(i + 1, tmp \cup ubp)
   IN IF hit = Exited THEN Exited
      ELSE IF Pc(hit) = RetAddr(i) /\ ~St(hit)
-          THEN Min({j \in After(hit) : Sb(j)})        \* step_in to the next line
+          THEN ScanSb(hit + 1)        \* step_in to the next line
           ELSE hit
-ImplFinish(i, ubp) == Min({j \in After(i) : Pc(j) = RetAddr(i) \/ Pc(j) \in ubp})
+ImplFinish(i, ubp) == ScanPc(i + 1, {RetAddr(i)} \cup ubp)
 
 ImplNextOk(i, ubp) == LET h == ImplNext(i, ubp) IN h \in NextAdm(i) \/ h = RefContinue(i, ubp)
 ImplFinishOk(i, ubp) == LET h == ImplFinish(i, ubp) IN h \in FinishAdm(i) \/ h = RefContinue(i, ubp)
